@@ -16,6 +16,9 @@ func seqJobs(prop string, tier string, cfgs []seqCfg) []Job {
 			nfirst = 18
 			init = sc.init
 		}
+		if sc.salt != 0 {
+			init += fmt.Sprintf("+salt%d", sc.salt)
+		}
 		for f := 0; f < nfirst; f++ {
 			f := f
 			jobs = append(jobs, Job{Name: fmt.Sprintf("%s/seq/%s/%s/%s/d%d/first=%d", prop, sc.nCfg, sc.policy, init, sc.depth, f), Run: func(jc *JobCtx) { runSeq(jc, sc, []int{f}) }})
